@@ -15,6 +15,7 @@ import (
 	"verif.local/harness/hx"
 	simnet "verif.local/sim/net"
 	"verif.local/sim/rt"
+	simtime "verif.local/sim/time"
 )
 
 var groupAddr = &net.UDPAddr{IP: net.IP{224, 0, 0, 252}, Port: 5355}
@@ -215,6 +216,7 @@ func runLLMNR(w *rt.World, res *hx.Result, realServer, realClient bool) *hx.Viol
 		group = &net.UDPAddr{IP: net.ParseIP("FF02::1:3"), Port: 5355}
 	}
 	timeoutKnob := hx.G(3) // real client: Timeout 2 s (default), 300 ms, 5 s
+	jitter := hx.G(3) == 0 // the responder handler answers after it returned, from a timer (RFC 4795 jitter), through the writer it was given
 
 	canaryRan := false
 	var srv *llmnr.Server
@@ -234,7 +236,12 @@ func runLLMNR(w *rt.World, res *hx.Result, realServer, realClient bool) *hx.Viol
 						// echo the record the request carried: read from the decoded message when the handler runs
 						resp.AddAnswerClassINTypeA(name, net.IP(msg.Answers[0].RData).String())
 					}
-					wr.WriteMessage(resp)
+					if jitter {
+						d := time.Duration(1+int(msg.ID)%7) * time.Millisecond
+						simtime.AfterFunc(d, func() { wr.WriteMessage(resp) })
+					} else {
+						wr.WriteMessage(resp)
+					}
 				}
 			}
 			return chain == 1 // in chain 1 the real describe handler ends the chain
@@ -740,7 +747,7 @@ func min64(a, b int64) int64 {
 // runChallenger: nbtns.NameChallenger.ChallengeOwnership against a harness node on port 137 that answers
 // with the right id, a wrong id first, a name error, or not at all.
 func runChallenger(w *rt.World, res *hx.Result) *hx.Violation {
-	mode := hx.G(5) // 0 owner answers, 1 wrong id first then right, 2 name error, 3 silent, 4 other owner
+	mode := hx.G(6) // 0 owner answers, 1 wrong id first then right, 2 name error, 3 silent, 4 other owner, 5 another host answers "released" with the right id before the owner confirms
 	if hx.G(2) == 0 {
 		w.Quiet = true // half of the runs: a faultless network, where the exact result is required
 	}
@@ -777,6 +784,22 @@ func runChallenger(w *rt.World, res *hx.Result) *hx.Violation {
 				return b
 			}
 			switch mode {
+			case 5:
+				// the forged negative answer leaves from another host's socket; the challenge socket is connected
+				// to the owner, so it belongs to no exchange of the challenger
+				spoof := mk(id, 3, nil)
+				dst := &net.UDPAddr{IP: src.IP, Port: src.Port}
+				sp := rt.GoHarness("spoofer", "10.0.3.9", func() {
+					sc, err := simnet.ListenUDP("udp4", &net.UDPAddr{Port: 137})
+					if err != nil {
+						return
+					}
+					sc.WriteToUDP(spoof, dst)
+					sc.Close()
+				})
+				rt.Join(sp, -1)
+				rt.SleepUntil(rt.Now() + 1e6)
+				c.WriteToUDP(mk(id, 0, owner), src)
 			case 0:
 				c.WriteToUDP(mk(id, 0, owner), src)
 			case 1:
@@ -816,10 +839,10 @@ func runChallenger(w *rt.World, res *hx.Result) *hx.Violation {
 		}
 		return nil
 	}
-	want := mode == 0 || mode == 1
+	want := mode == 0 || mode == 1 || mode == 5
 	if got != want {
 		return &hx.Violation{Class: "client_mismatch", Key: "challenger_result",
-			Msg: fmt.Sprintf("ChallengeOwnership returned %v, expected %v (node behaviour %d: 0 confirms, 1 wrong id then confirms, 2 name error, 3 silent, 4 other owner)", got, want, mode)}
+			Msg: fmt.Sprintf("ChallengeOwnership returned %v, expected %v (node behaviour %d: 0 confirms, 1 wrong id then confirms, 2 name error, 3 silent, 4 other owner, 5 a third host says released with the right id, then the owner confirms)", got, want, mode)}
 	}
 	return nil
 }
